@@ -31,7 +31,7 @@ ASSUMPTIONS = [
     'ShellComp::Raw strings and &\'static constants are supplied by the developer, not by the user at completion time',
     'shell semantics: text inside single quotes with \' -> \'\\\'\' is data for bash and zsh',
 ]
-FLOORS = {'T1.typed-quoting': 19, 'T2.newline': 23, 'T3.accumulator': 6, 'T4.coverage': 12, 'T5.escaper': 4, 'T6.dispatch': 5, 'T7.stubs': 8, 'T8.line-protocol': 2}
+FLOORS = {'T1.typed-quoting': 19, 'T2.newline': 23, 'T3.accumulator': 6, 'T4.coverage': 12, 'T5.escaper': 4, 'T6.dispatch': 5, 'T7.stubs': 8, 'T8.line-protocol': 2, 'T9.once': 4}
 
 RENDERERS = ['render_zsh', 'render_bash', 'render_fish', 'render_simple']
 INT_TYPES = {'usize', 'u8', 'u16', 'u32', 'u64', 'u128', 'isize', 'i8', 'i16', 'i32', 'i64', 'i128'}
@@ -69,6 +69,7 @@ def run(ctx):
         ctx.guard(t6, ctx, cfg, fs)
         ctx.guard(t7, ctx, cfg, fs)
         ctx.guard(t8, ctx, cfg, fs, bodies)
+        ctx.guard(t9, ctx, cfg, fs, bodies)
         ctx.guard(t5_offsets, ctx, cfg, fs)
         import c14, c08
         ctx.guard(c08.keep_only, ctx, lambda: c14.no_late_none(ctx, cfg, fs), lambda o: True, 'T6.dispatch')
@@ -224,6 +225,44 @@ def t3(ctx, cfg, fs, bodies):
             desc = 'acc' if is_acc else ';'.join(sorted('%s:%s' % (x.kind, x.what) for x in roots))
             ctx.ob('T3.accumulator', '%s:return:%s:%s' % (body.path, desc, 'after-write' if b in after_write else 'before-write'), ok,
                    '%s: %s' % (body.path, why), where=body.where(b), cfg=cfg)
+
+def t9(ctx, cfg, fs, bodies):
+    """each candidate appears once: a renderer that answers a special case from a single element of `items` (`items[0]`, a
+    slice pattern) has finished with the items - the general loop over `items` must not run after such a write, or the same
+    candidate is emitted a second time"""
+    for r in RENDERERS:
+        body = bodies[r]
+        params = {body.name_of(i): i for i in range(1, body.arg_count + 1)}
+        if 'items' not in params:
+            continue
+        its = iter_blocks(body, params['items'], r'complete_gen::ShowComp')
+        if not its:
+            continue
+        in_loop = set()
+        for x in its:
+            in_loop |= {y for y in body.reachable(x) if body.reaches(y, [x])}
+        twice = []; n = 0
+        for site in fmt_sites(body):
+            if site.bb in in_loop:
+                continue
+            from_items = False
+            for (meth, T, op, bb) in site.args:
+                def items_rooted(rs, depth=0):
+                    for q in rs:
+                        if q.kind == 'param' and q.what == 'items':
+                            return True
+                        if q.kind == 'agg' and depth < 3 and any(items_rooted(provenance(body, f, q.site[0], q.site[1]), depth + 1) for f in q.extra['fields']):
+                            return True
+                    return False
+                if items_rooted(provenance(body, op, bb, 'term')):
+                    from_items = True
+            if not from_items:
+                continue
+            n += 1
+            if body.reaches(site.bb, list(its)):
+                twice.append(body.where(site.bb))
+        ctx.ob('T9.once', '%s:special-case-excludes-loop' % body.path, not twice,
+               '%s: %d write(s) take a candidate directly from `items` outside the loop; after none of them the loop over `items` runs as well: %s' % (body.path, n, twice or 'ok'), where=body.where(), cfg=cfg)
 
 def size_tests(body, param_local):
     """blocks whose switch condition derives from len()/is_empty()/slice pattern length of the param"""
@@ -423,6 +462,12 @@ def t7(ctx, cfg, fs):
         ctx.ob('T7.stubs', 'dump_%s_completer:revision' % sh, ok,
                'the %s stub asks for --bpaf-complete-rev=%s; the dispatch table renders %s output for revision %d' % (sh, m, sh, rev),
                where=body.where(), cfg=cfg)
+    # zsh only looks at the FIRST LINE of a file in $fpath: the completer is registered iff that line is the #compdef tag
+    body = ctx.look(fs.one(r'^complete_run::dump_zsh_completer$'))
+    sites = sorted(fmt_sites(body), key=lambda s_: (0 if all(body.dominates(s_.bb, o.bb) for o in fmt_sites(body)) else 1))
+    first = sites[0].text() if sites else ''
+    ctx.ob('T7.stubs', 'dump_zsh_completer:compdef-first', first.startswith('#compdef {}') or first.startswith('#compdef '),
+           'the zsh stub starts with %r (compinit registers a file only when its first line is the #compdef tag)' % first[:24], where=body.where(), cfg=cfg)
     body = ctx.look(fs.one(r'complete_run::.*ArgScanner.*check_next$'))
     # string comparisons against the style flags
     for sh in STUBS:
